@@ -1037,6 +1037,15 @@ func (f *File) Cleanup() {
 	}
 	f.Retract = f.Retract[:w]
 
+	w = 0
+	for _, t := range f.Tool {
+		if t.Path != "" {
+			f.Tool[w] = t
+			w++
+		}
+	}
+	f.Tool = f.Tool[:w]
+
 	f.Syntax.Cleanup()
 }
 
